@@ -126,6 +126,25 @@ func c16ts(c *Ctx) {
 		f := Format(r.Intn(3))
 		lg := newRoot(gen.Pick(r, []string{"", "t16"}), f, w, slog.AlwaysLevel)
 		utc := r.Intn(3) // 0 unset, 1 SetUTCMode(false), 2 SetUTCMode(true)
+		layout := ""
+		if r.P(55) {
+			layout = gen.Pick(r, c16layouts)
+		}
+		// the logger may have printed a record under OTHER settings of its own before it got the ones under test
+		earlier := "-"
+		if r.P(30) && (utc != 0 || layout != "") {
+			if utc != 0 {
+				lg.SetUTCMode(utc != 2)
+				earlier = fmt.Sprintf("utc=%v ", utc != 2)
+			}
+			if layout != "" {
+				o := gen.Pick(r, c16layouts)
+				lg.SetTimeFormat(o)
+				earlier += "layout=" + o
+			}
+			lg.WriteThru(bg, slog.InfoLevel, c16instant(r, zones), thePC, "an earlier record of the same logger", nil)
+			c.R.Add("cases_after_an_earlier_record_under_other_logger_settings", 1)
+		}
 		switch utc {
 		case 1:
 			lg.SetUTCMode(false)
@@ -136,9 +155,7 @@ func c16ts(c *Ctx) {
 				lg.SetUTCMode()
 			}
 		}
-		layout := ""
-		if r.P(55) {
-			layout = gen.Pick(r, c16layouts)
+		if layout != "" {
 			lg.SetTimeFormat(layout)
 		}
 		// the same settings reached through a derived logger instead: parent.WithTimeFormat(..) / parent.WithUTCMode(..),
@@ -172,7 +189,7 @@ func c16ts(c *Ctx) {
 		}
 		ts := c16instant(r, zones)
 		evs := capture(log, func() { lg.WriteThru(bg, slog.InfoLevel, ts, thePC, "tsprobe", nil) })
-		desc := map[string]any{"derived": derived, "after_saveflags_window": window, "format": f.String(), "flags": flagNames(fl), "utc_mode": []string{"unset", "local (SetUTCMode(false))", "utc"}[utc], "logger_layout": layout, "instant": ts.Format(time.RFC3339Nano), "zone": ts.Location().String()}
+		desc := map[string]any{"derived": derived, "earlier_record_under": earlier, "after_saveflags_window": window, "format": f.String(), "flags": flagNames(fl), "utc_mode": []string{"unset", "local (SetUTCMode(false))", "utc"}[utc], "logger_layout": layout, "instant": ts.Format(time.RFC3339Nano), "zone": ts.Location().String()}
 		if len(evs) != 1 {
 			c.R.Violation(idx, "one-write", "C16/one-write", fmtEvents(evs), desc)
 			return
